@@ -31,6 +31,8 @@ var wshapes = []wshape{
 	{n: 4, edges: [][2]int{{0, 2}, {1, 2}, {2, 3}}},                 // join then chain
 	{n: 4, edges: [][2]int{{0, 1}, {1, 3}, {2, 3}}, alias: []int{1}}, // join with one dependency behind an alias
 	{n: 3, edges: [][2]int{{0, 1}, {1, 2}}, alias: []int{1}},         // chain through an alias
+	{n: 3, edges: [][2]int{{0, 2}, {0, 2}, {1, 2}}},                  // join whose first dependency is listed twice (the loader keeps duplicates)
+	{n: 3, edges: [][2]int{{0, 1}}},                                  // a chain of 2 beside an independent node
 }
 
 type walkMonitor struct {
@@ -43,7 +45,11 @@ type walkMonitor struct {
 	running   int
 	maxRun    int
 	liveCtxAfterCancel bool
+	lateSuccess        []bool // callback returned success although its context was already cancelled
 }
+
+// wIgnoreCancel: callbacks complete successfully even when their context has been cancelled meanwhile
+var wIgnoreCancel bool
 
 func nodeIndex(n model.BuildNode) int {
 	name := n.GetLabel().Name
@@ -67,7 +73,7 @@ func buildWalkGraph(sh wshape) ([]model.BuildNode, *DirectedTargetGraph, *walkMo
 		}
 	}
 	g := NewDirectedGraphFromTargets(nodes...)
-	m := &walkMonitor{n: sh.n, started: make([]int, sh.n), finished: make([]bool, sh.n), failed: make([]bool, sh.n), selected: make([]bool, sh.n)}
+	m := &walkMonitor{n: sh.n, lateSuccess: make([]bool, sh.n), started: make([]int, sh.n), finished: make([]bool, sh.n), failed: make([]bool, sh.n), selected: make([]bool, sh.n)}
 	m.dep = make([][]bool, sh.n)
 	for i := range m.dep {
 		m.dep[i] = make([]bool, sh.n)
@@ -102,6 +108,9 @@ func walkScenario(prefix string, sh wshape, failing int, failFast bool, external
 		for d := 0; d < m.n; d++ {
 			if m.dep[d][i] {
 				sym.Assert(m.finished[d], prefix+".W-order.every-dependency-finished-successfully-first")
+				// fail-fast: a dependency that completed only after the failure had been observed (its
+				// context was already cancelled) does not release its dependants any more
+				sym.Assert(!m.lateSuccess[d], prefix+".W-ff.no-target-becomes-ready-after-the-failure-was-observed")
 			}
 		}
 		if cctx.Err() == nil && cancelled && !externalCancelRacing {
@@ -111,11 +120,25 @@ func walkScenario(prefix string, sh wshape, failing int, failFast bool, external
 		if m.running > m.maxRun {
 			m.maxRun = m.running
 		}
-		sym.Yield() // arbitrary latency, including zero
+		if wIgnoreCancel && !externalCancel && failing >= 0 && i != failing && !m.dep[i][failing] {
+			// this target's work ends at the very moment the walk is cancelled (the failure has been
+			// observed): it still completes successfully
+			<-cctx.Done()
+		} else {
+			sym.Yield() // arbitrary latency, including zero
+		}
 		m.running--
 		if err := cctx.Err(); err != nil {
-			// contract of the executor callback: a cancelled context yields the context's error
-			return CacheMiss, err
+			if !wIgnoreCancel || externalCancel {
+				// contract of the executor callback: a cancelled context yields the context's error
+				return CacheMiss, err
+			}
+			// ... unless the work was already done when the cancellation arrived (the command exited at
+			// that very moment, or the target was being restored from the cache)
+			if i != failing {
+				m.lateSuccess[i] = true
+				sym.Reach(prefix + ".W-ff.a-target-completed-after-the-failure-was-observed")
+			}
 		}
 		if i == failing {
 			m.failed[i] = true
@@ -126,14 +149,25 @@ func walkScenario(prefix string, sh wshape, failing int, failFast bool, external
 	}
 	w := NewWalker(g, cb, failFast)
 	if externalCancel {
+		// the cancellation (Ctrl-C) arrives either as soon as Walk first blocks, or as an external event
+		// before any visible step of the walk (one deviation, leaving the rest of the budget for the
+		// interleaving around it)
+		late := flag("cancel_arrives_as_external_event")
 		go func() {
-			sym.Yield()
+			if late {
+				sym.ExternalEvent("cancel")
+			} else {
+				sym.Yield()
+			}
 			cancelled = true
 			cancel()
 		}()
 	}
 	completions, err := w.Walk(ctx)
 	sym.Reach(prefix + ".walk-returned")
+	// fail-fast and cancellation let Walk return while node routines are still running: what they
+	// do afterwards (callbacks entered, maps written) is still the walker's behaviour
+	sym.Quiesce()
 	if externalCancel {
 		return // resolution of the remaining nodes is "skipped because the build was cancelled"
 	}
@@ -187,7 +221,19 @@ func pickFailing(sh wshape, allowNone bool) (int, bool) {
 // C03: ordering, at-most-once, selection - every shape, optional failure, both modes, every schedule
 // within the deviation bound
 func VerifC03_W_walk() {
-	sh := wshapes[sym.Choice("shape", len(wshapes))]
+	small := []int{0, 1, 2, 3, 4, 5, 9, 10, 11} // the shapes with <=3 nodes
+	sh := wshapes[small[sym.Choice("shape", len(small))]]
+	failing, ok := pickFailing(sh, true)
+	if !ok {
+		return
+	}
+	walkScenario("C03", sh, failing, flag("fail_fast"), false)
+}
+
+// ... the 4-node shapes (diamond, join-then-chain, join behind an alias): smaller deviation bound in the quick tier
+func VerifC03_W_walk_4nodes() {
+	large := []int{6, 7, 8}
+	sh := wshapes[large[sym.Choice("shape", len(large))]]
 	failing, ok := pickFailing(sh, true)
 	if !ok {
 		return
@@ -197,12 +243,35 @@ func VerifC03_W_walk() {
 
 // C05: containment of failures (keep-going / fail-fast)
 func VerifC05_W_containment() {
-	sh := wshapes[[]int{1, 2, 3, 6}[sym.Choice("shape", 4)]]
+	sh := wshapes[[]int{1, 2, 3}[sym.Choice("shape", 3)]]
 	failing, ok := pickFailing(sh, false)
 	if !ok {
 		return
 	}
 	walkScenario("C05", sh, failing, flag("fail_fast"), false)
+}
+
+// ... on the diamond (explored with a smaller deviation bound in the quick tier)
+func VerifC05_W_containment_diamond() {
+	sh := wshapes[6]
+	failing, ok := pickFailing(sh, false)
+	if !ok {
+		return
+	}
+	walkScenario("C05", sh, failing, flag("fail_fast"), false)
+}
+
+// C05, fail-fast: targets that were running when the failure was observed and still complete
+// successfully (their work ended as the cancellation arrived) release nothing any more
+func VerifC05_W_failfast_late_success() {
+	sh := wshapes[[]int{11, 6}[sym.Choice("shape", 2)]]
+	failing, ok := pickFailing(sh, false)
+	if !ok {
+		return
+	}
+	wIgnoreCancel = true
+	walkScenario("C05", sh, failing, true, false)
+	wIgnoreCancel = false
 }
 
 // C04: Walk returns (no deadlock, no crash) for every failure pattern and mode ...
